@@ -1,6 +1,7 @@
 import HdVerif.Proofs.SegGeom
 import HdVerif.Proofs.SegGeomTie
 import HdVerif.Proofs.SegFrames
+import HdVerif.Proofs.SegTiles
 /-! # C03  Derived images sit where the user placed them in space
 
 Property theorems only (helper lemmas: `Proofs/SegGeom.lean`; T3 lemmas of C04: `Proofs/TilingStd.lean`).
@@ -17,7 +18,7 @@ lists (frame index, output slot), `VolOut.aff` is the affine of the returned vol
 is C01, choice of segments C02. -/
 namespace HdVerif.C03
 open HdVerif HdVerif.Gen HdVerif.SegGeom HdVerif.SegGeom.V3 HdVerif.SegGeomLemmas HdVerif.TilingLemmas
-open HdVerif.SegFrames HdVerif.SegFramesLemmas
+open HdVerif.SegFrames HdVerif.SegFramesLemmas HdVerif.SegTilesLemmas
 
 /-! ## 1. Segmentation from a volume reads back where the input put it -/
 
@@ -1021,6 +1022,117 @@ theorem frame_loop_wiring :
     ⟨by decide, by decide, by decide⟩, ⟨by decide, by decide, by decide, by decide, by decide, by decide⟩,
     ⟨by decide, by decide⟩⟩
 
+/-! ## 9. The tiles a segmentation stores for a total-pixel-matrix mask (`tileFrames`: TILED_SPARSE, pyramid levels)
+
+For EVERY matrix size `R × C`, tile size `tr × tc` (non-square, with remainders), orientation, pixel spacing, emptiness
+pattern and segment layout.  `tileGrid` / `tilePosition` / `rankOf` are hand-written from
+`compute_tile_positions_per_frame` (owned by C10 / C12, whose bridges pin its arithmetic) and the constructor's
+`np.unique` look-up; they are tied to the code by the correspondence stream `tiled/frames`, `tiledpos/frames` (L1: segment,
+offset, slide position and DimensionIndexValues of every stored tile in stored order — from a mask, from a SLIDE volume, from
+individually handed-over tiles in any order) and the skip test by `frame_loop_uses_the_source`. -/
+
+/-- **Every stored tile is a tile of the grid, inside the matrix, recorded at the position of its first pixel**: offsets
+`(i·tr + 1, j·tc + 1)` with `1 ≤ row ≤ R`, `1 ≤ column ≤ C`; slide coordinates = origin moved `row − 1` rows and `column − 1`
+columns. -/
+theorem stored_tiles_are_grid_tiles (origin rowCos colCos : V3) (psRow psCol : Rat) (R C tr tc : Nat) (htr : 0 < tr) (htc : 0 < tc)
+    (nonempty : List Bool) (om : Bool) (segs : List (Option Nat)) (present : Option Nat → Nat → Bool) (f : TileFrame)
+    (hf : f ∈ tileFrames origin rowCos colCos psRow psCol R C tr tc nonempty om segs present) :
+    f.seg ∈ segs ∧ (tileGrid R C tr tc)[f.tile]? = some (f.row, f.col) ∧
+    1 ≤ f.row ∧ f.row ≤ R ∧ 1 ≤ f.col ∧ f.col ≤ C ∧
+    f.pos = tilePosition origin rowCos colCos psRow psCol f.row f.col := by
+  obtain ⟨h1, h2, h3, h4, _, _⟩ := mem_tileFrames origin rowCos colCos psRow psCol R C tr tc nonempty om segs present f hf
+  obtain ⟨h5, h6, h7, h8⟩ := tileGrid_inside R C tr tc htr htc _ h2
+  exact ⟨h1, h3, h5, h6, h7, h8, h4⟩
+
+/-- **The stored position of every tile is the affine image of its pixel offset under the geometry the image reports**
+(`get_volume_geometry` of the tiled segmentation): read-back geometry ∘ stored offset = stored position, for all shapes
+and orientations. -/
+theorem tile_frame_positions_are_affine_images (origin rowCos colCos : V3) (psRow psCol : Rat) (sbs : Option Rat) (R C tr tc : Nat)
+    (nonempty : List Bool) (om : Bool) (segs : List (Option Nat)) (present : Option Nat → Nat → Bool) (full : Aff)
+    (hfull : volumeGeometryTiled origin rowCos colCos psRow psCol sbs = .ok full) (f : TileFrame)
+    (hf : f ∈ tileFrames origin rowCos colCos psRow psCol R C tr tc nonempty om segs present) :
+    full.apply 0 (f.row - 1) (f.col - 1) = f.pos := by
+  obtain ⟨_, _, _, h4, _, _⟩ := mem_tileFrames origin rowCos colCos psRow psCol R C tr tc nonempty om segs present f hf
+  rw [tiled_geometry_positions origin rowCos colCos psRow psCol sbs full hfull, h4]
+  rfl
+
+/-- **A sub-region that starts at a stored tile starts at the tile's recorded position** (`get_volume(row_start=row,
+column_start=column)` of the tiled segmentation, one-based as recorded): read side and write side agree tile by tile. -/
+theorem tile_subvolume_starts_at_the_tile (origin rowCos colCos : V3) (psRow psCol : Rat) (sbs : Option Rat) (R C tr tc : Nat)
+    (htr : 0 < tr) (htc : 0 < tc) (nonempty : List Bool) (om : Bool) (segs : List (Option Nat)) (present : Option Nat → Nat → Bool)
+    (f : TileFrame) (hf : f ∈ tileFrames origin rowCos colCos psRow psCol R C tr tc nonempty om segs present) (out : VolOut)
+    (h : tiledVolume .seg origin rowCos colCos psRow psCol sbs R C
+      { rowStart := some f.row, colStart := some f.col } = .ok out) :
+    out.aff.apply 0 0 0 = f.pos ∧ out.rows = (R : Int) - (f.row - 1) ∧ out.cols = (C : Int) - (f.col - 1) := by
+  obtain ⟨_, _, hr1, hr2, hc1, hc2, hpos⟩ :=
+    stored_tiles_are_grid_tiles origin rowCos colCos psRow psCol R C tr tc htr htc nonempty om segs present f hf
+  obtain ⟨full, a, b, c, d, hfull, hT3, _, haff, _, hrw, hcl, _, _, hab, _, _, _, hcd, _⟩ :=
+    tiled_subvolume_origin .seg origin rowCos colCos psRow psCol sbs R C _ out h
+  have hspec : ∀ r n : Int, 1 ≤ r → r ≤ n → sliceSpec (some r) none n false = some (r - 1, n) := by
+    intro r n h1 h2
+    unfold sliceSpec convArg wrapIdx
+    simp only [Bool.false_eq_true, if_false]
+    have h0 : ¬ (r = 0) := by omega
+    have hp : 0 < r := by omega
+    simp [h0, hp]
+    omega
+  have hs1 := hspec f.row R hr1 hr2
+  have hs2 := hspec f.col C hc1 hc2
+  have hk := (stdRowColIndices_spec (some f.row) none (some f.col) none R C false (f.row - 1) R (f.col - 1) C).mpr ⟨hs1, hs2⟩
+  simp only at hT3
+  rw [hk.1] at hT3
+  simp only [Except.ok.injEq, Prod.mk.injEq] at hT3
+  obtain ⟨rfl, rfl, rfl, rfl⟩ := hT3
+  refine ⟨?_, hrw, hcl⟩
+  rw [haff, tiled_geometry_positions origin rowCos colCos psRow psCol sbs full hfull, hpos]
+  simp only [add_zero]
+  rfl
+
+/-- **DimensionIndexValues of tiles follow their offsets and coordinates**: the row / column index of one stored tile is
+smaller than another's exactly when its row / column offset is, and the x / y / z indices order the tiles by their slide
+coordinates. -/
+theorem tile_dimension_indices_follow_offsets (origin rowCos colCos : V3) (psRow psCol : Rat) (R C tr tc : Nat)
+    (nonempty : List Bool) (om : Bool) (segs : List (Option Nat)) (present : Option Nat → Nat → Bool) (f f' : TileFrame)
+    (hf : f ∈ tileFrames origin rowCos colCos psRow psCol R C tr tc nonempty om segs present)
+    (hf' : f' ∈ tileFrames origin rowCos colCos psRow psCol R C tr tc nonempty om segs present) :
+    ∃ r c x y z r' c' x' y' z' : Int, f.div = [r, c, x, y, z] ∧ f'.div = [r', c', x', y', z'] ∧
+      1 ≤ r ∧ 1 ≤ c ∧ 1 ≤ x ∧ 1 ≤ y ∧ 1 ≤ z ∧
+      (r < r' ↔ f.row < f'.row) ∧ (c < c' ↔ f.col < f'.col) ∧
+      (x < x' ↔ f.pos.x < f'.pos.x) ∧ (y < y' ↔ f.pos.y < f'.pos.y) ∧ (z < z' ↔ f.pos.z < f'.pos.z) := by
+  have hk := (mem_tileFrames origin rowCos colCos psRow psCol R C tr tc nonempty om segs present f hf).2.2.2.2.2
+  have hk' := (mem_tileFrames origin rowCos colCos psRow psCol R C tr tc nonempty om segs present f' hf').2.2.2.2.2
+  unfold tileFrames at hf hf'
+  obtain ⟨s, _, hfs⟩ := List.mem_flatMap.mp hf
+  obtain ⟨s', _, hfs'⟩ := List.mem_flatMap.mp hf'
+  obtain ⟨_, _, _, hd⟩ := mem_tileFramesOf s _ present _ _ f hfs
+  obtain ⟨_, _, _, hd'⟩ := mem_tileFramesOf s' _ present _ _ f' hfs'
+  set kept := keptTiles (tilesOf origin rowCos colCos psRow psCol R C tr tc) nonempty om with hkept
+  have hm : ((f.row, f.col), f.pos) ∈ kept.map (fun p => p.1) := List.mem_map.mpr ⟨_, hk, rfl⟩
+  have hm' : ((f'.row, f'.col), f'.pos) ∈ kept.map (fun p => p.1) := List.mem_map.mpr ⟨_, hk', rfl⟩
+  have mem : ∀ (g : Tile → Rat) (q : Tile), q ∈ kept.map (fun p => p.1) → g q ∈ (kept.map (fun p => p.1)).map g :=
+    fun g q hq => List.mem_map.mpr ⟨q, hq, rfl⟩
+  refine ⟨_, _, _, _, _, _, _, _, _, _, hd, hd', rankOf_pos _ _, rankOf_pos _ _, rankOf_pos _ _, rankOf_pos _ _, rankOf_pos _ _,
+    ?_, ?_, ?_, ?_, ?_⟩
+  · rw [rankOf_lt_iff _ _ _ (mem (fun k => (k.1.1 : Rat)) _ hm) (mem (fun k => (k.1.1 : Rat)) _ hm')]
+    exact Int.cast_lt
+  · rw [rankOf_lt_iff _ _ _ (mem (fun k => (k.1.2 : Rat)) _ hm) (mem (fun k => (k.1.2 : Rat)) _ hm')]
+    exact Int.cast_lt
+  · exact rankOf_lt_iff _ _ _ (mem (fun k => k.2.x) _ hm) (mem (fun k => k.2.x) _ hm')
+  · exact rankOf_lt_iff _ _ _ (mem (fun k => k.2.y) _ hm) (mem (fun k => k.2.y) _ hm')
+  · exact rankOf_lt_iff _ _ _ (mem (fun k => k.2.z) _ hm) (mem (fun k => k.2.z) _ hm')
+
+/-- **No non-empty tile is lost**: a tile of the grid that is kept (non-empty, or every tile without `omit_empty_frames`) has
+a frame for every segment of the loop that is not skipped there, at the grid's offset and position. -/
+theorem kept_tiles_are_stored (origin rowCos colCos : V3) (psRow psCol : Rat) (R C tr tc : Nat) (nonempty : List Bool) (om : Bool)
+    (segs : List (Option Nat)) (present : Option Nat → Nat → Bool) (s : Option Nat) (hs : s ∈ segs) (q : Tile) (i : Nat)
+    (hq : (q, i) ∈ keptTiles (tilesOf origin rowCos colCos psRow psCol R C tr tc) nonempty om)
+    (hsk : skipped s (omitEff nonempty om) (present s i) = false) :
+    ∃ f ∈ tileFrames origin rowCos colCos psRow psCol R C tr tc nonempty om segs present,
+      f.seg = s ∧ f.tile = i ∧ f.row = q.1.1 ∧ f.col = q.1.2 ∧ f.pos = q.2 := by
+  obtain ⟨f, hf, hr⟩ := tileFramesOf_complete s (omitEff nonempty om) present
+    ((keptTiles (tilesOf origin rowCos colCos psRow psCol R C tr tc) nonempty om).map (fun p => p.1)) _ q i hq hsk
+  exact ⟨f, List.mem_flatMap.mpr ⟨s, hs, hf⟩, hr⟩
+
 /-! ## Non-vacuity: the hypotheses are satisfiable by concrete, non-trivial inputs -/
 
 /-- a left-handed, anisotropic, axis-swapped geometry (directions: d0 = −z, d1 = x, d2 = y) -/
@@ -1101,5 +1213,13 @@ example : ([1, 2] : List Nat).Nodup ∧ (segmentsIterable false [1, 2]).Pairwise
 example : segFrames ((List.range 3).map (fun _ => (⟨0, 0, 1⟩ : V3))) ⟨1, 0, 0⟩ ⟨0, 1, 0⟩ [true, true, true] false [none] (fun _ _ => true)
     = .error .value := by decide +kernel
 example : frameSkipped (some 2) true false = .ok true ∧ frameSkipped none true false = .ok false := by decide
+
+-- section 9: a 6 × 8 matrix in 4 × 4 tiles (remainder rows), tiles 0 and 3 kept: two frames, indices (1,1,2,2,1) and (2,2,1,1,1)
+example : (tileFrames ⟨10, 20, 0⟩ ⟨0, -1, 0⟩ ⟨-1, 0, 0⟩ (1 / 2) (1 / 4) 6 8 4 4 [true, false, false, true] true [none]
+    (fun _ _ => true)).map (fun f => (f.row, f.col, f.pos, f.div))
+    = [(1, 1, ⟨10, 20, 0⟩, [1, 1, 2, 2, 1]), (5, 5, ⟨8, 19, 0⟩, [2, 2, 1, 1, 1])] := by decide +kernel
+example : volumeGeometryTiled ⟨10, 20, 0⟩ ⟨0, -1, 0⟩ ⟨-1, 0, 0⟩ (1 / 2) (1 / 4) none
+    = .ok ⟨⟨0, 0, 1⟩, ⟨-1 / 2, 0, 0⟩, ⟨0, -1 / 4, 0⟩, ⟨10, 20, 0⟩⟩ := by
+  norm_num [volumeGeometryTiled, defaultSpacing, fromAttributes, orthogonalCols, normal, cross, smul, dot, rabs, tolEq]
 
 end HdVerif.C03
